@@ -124,9 +124,18 @@ fn run_backoff_case(log: &EvLog, run: u64, strat: &str, step: Duration, factor: 
             "exact": false, "stepL": limbs(step_ns), "factorL": limbs(factor as u128), "capL": limbs(cap_ns)}));
     }
     let r = catch_unwind(AssertUnwindSafe(|| {
-        let mut s = strategy(strat, factor).with_max_attempts(att).with_step(step);
-        if let Some(c) = cap {
-            s = s.with_max_duration(c);
+        // the configuration is a record: the order of the builder calls must not matter
+        let mut s = strategy(strat, factor);
+        let order: [[u8; 3]; 6] = [[0, 1, 2], [0, 2, 1], [1, 0, 2], [1, 2, 0], [2, 0, 1], [2, 1, 0]];
+        for call in order[(run % 6) as usize] {
+            s = match call {
+                0 => s.with_max_attempts(att),
+                1 => s.with_step(step),
+                _ => match cap {
+                    Some(c) => s.with_max_duration(c),
+                    None => s,
+                },
+            };
         }
         s.into_iter()
     }));
@@ -658,6 +667,14 @@ fn mutate(stage: &str, mutn: &str, mut v: Vec<u8>, rng: &mut StdRng) -> Vec<u8> 
         }
         "elem_len_max" => put_u64_at(&mut v, 8, [1u64 << 40, u64::MAX][rng.gen_range(0..2)]),
         "short_header" => v.truncate(rng.gen_range(0..8)),
+        "declared_size_huge" => {
+            // zstd frame: magic | descriptor 0xC0 (8-byte content size, no single segment) | window
+            // descriptor | content size (LE) | one empty last raw block
+            let size: u64 = [256u64 << 20, 1 << 32, 1 << 40, 1 << 63][rng.gen_range(0..4)];
+            v = vec![0x28, 0xB5, 0x2F, 0xFD, 0xC0, 0x00];
+            v.extend_from_slice(&size.to_le_bytes());
+            v.extend_from_slice(&[0x01, 0x00, 0x00]);
+        }
         _ => {}
     }
     v
